@@ -132,5 +132,56 @@ def run(ctx):
         good = last_ty == ('max_duration' if by_dur else 'normal') and up[0].args[1][0] == 'var' and up[0].args[1][2] == 'min'
         okt = good if okt is None else (okt and good)
     ctx.check(bool(okt), 'R3', 'next_occurring_event_lazy stores min in the heap, typed max_duration iff the deadline won', where(lz), '', key='R3|next_occurring_event_lazy|heap type')
-    ctx.assume('numerical agreement of the two algorithms and the trace-integration (TI) model are not decided')
+    # ---- R4 lazy accounting happens while the action still counts as running --------------------------------------------------------------------
+    ctx.rule('R4', 'Action::suspend brings the remaining work up to date (update_remains_lazy) before the action stops being "running": lazy accountants return early for a non-running action', 4)
+    from ..cfg import abstract_run as _arun
+    SUSP = lib.this_field(K + 'Action::suspended_')
+    guards = []
+    for f in P.fns.values():
+        if f['q'].endswith('::update_remains_lazy') and f.get('blocks'):
+            vv = A.view(f)
+            if any(vv.cond_atom(b['id']) is not None and 'is_running' in repr(vv.cond_atom(b['id'])[0]) for b in vv.blocks):
+                guards.append(f['q'].replace(K, ''))
+    ctx.check(True, 'R4', 'premise: lazy accountants that skip a non-running action: %s' % (sorted(guards) or 'none'), 'src/kernel/resource', '', key='R4|premise')
+    sus = P.fn(K + 'Action::suspend')
+
+    def tr4(st, e):
+        flagged, updated, bad = st
+        if e.kind == 'assign' and e.lhs == SUSP:
+            return (e.line, updated, bad)
+        if e.kind == 'call' and e.q.endswith('::update_remains_lazy'):
+            return (flagged, True, bad or ('update_remains_lazy() at line %s runs after suspended_ was set (line %s): %s return(s) at once for a non-running action, so the work done until now is never '
+                                           'subtracted and is debited again after resume()' % (e.line, flagged, ', '.join(sorted(guards))) if (flagged and guards) else None))
+        return None
+    ex4 = _arun(A, sus, (None, False, None), tr4)
+    st4 = ex4['normal']
+    bad4 = sorted(set(x[2] for x in st4 if x[2]))
+    ctx.check(bool(st4) and any(x[1] for x in st4) and not bad4, 'R4', 'Action::suspend: update_remains_lazy(now) before suspended_ = SUSPENDED', where(sus), bad4[0] if bad4 else '', key='R4|Action::suspend|accounting before the state change')
+    # the trace-integration CPU accounts in CpuTi::update_remaining_amount, which skips the non-running actions and divides by the current penalty:
+    # its action mutators must account for the elapsed interval before they change either
+    ura = [f for f in P.fns.values() if f['q'].endswith('CpuTi::update_remaining_amount') and f.get('blocks')]
+    if ura:
+        vv = A.view(ura[0])
+        skips = any(vv.cond_atom(b['id']) is not None and 'is_running' in repr(vv.cond_atom(b['id'])[0]) for b in vv.blocks)
+        uses_pen = any('get_sharing_penalty' in repr(e.nf) for eid in range(len(ura[0]['elems'])) for e in vv.events_of(eid) if e.kind == 'call' and e.q.endswith('::update_remains'))
+        for nm, change in (('suspend', lambda e: e.kind == 'call' and e.q.endswith('::set_suspend_state')), ('resume', lambda e: e.kind == 'call' and e.q.endswith('::set_suspend_state')),
+                           ('set_sharing_penalty', lambda e: e.kind == 'call' and e.q.endswith('::set_sharing_penalty_no_update'))):
+            fs = [f for f in P.fns.values() if f['q'].endswith('CpuTiAction::' + nm) and f.get('blocks')]
+            if len(fs) != 1 or not (skips if nm != 'set_sharing_penalty' else uses_pen):
+                continue
+
+            def trt(st, e, _change=change):
+                accounted, bad = st
+                if e.kind == 'call' and e.q.endswith('CpuTi::update_remaining_amount'):
+                    return (True, bad)
+                if _change(e) and not accounted:
+                    return (accounted, bad or e.line)
+                return None
+            ext = _arun(A, fs[0], (False, None), trt)
+            badl = sorted(set(x[1] for x in ext['normal'] if x[1]))
+            changes = any(change(e) for eid in range(len(fs[0]['elems'])) for e in A.view(fs[0]).events_of(eid))
+            ctx.check(changes and not badl, 'R4', 'CpuTiAction::%s accounts for the elapsed interval (update_remaining_amount(now)) before changing what that accounting reads' % nm, where(fs[0], badl[0] if badl else None),
+                      'the change at line %s is made first: update_remaining_amount() then %s for the interval that has just elapsed' % (badl[0], 'skips this action or counts suspended time as work' if nm != 'set_sharing_penalty' else 'divides by the new penalty') if badl else '',
+                      key='R4|CpuTiAction::%s|accounting before the state change' % nm)
+    ctx.assume('numerical agreement of the algorithms is not decided; for the trace-integration (TI) CPU only the accounting order of its action mutators is')
     return EXPLANATION
